@@ -116,6 +116,11 @@ def run_pairs(R, cases, M, judge=True):
         if h[2:3] == ["false"]: R.count("operands_with_a_degenerate_member")
         elif h == ["badoperand"]: R.count("operands_not_parsed_by_model")
         else: R.count("operands_outside_hypotheses(local_label_or_improper)")
+    # the hypotheses of the difference theorem are about the pair (the bounds of both operands mutually regular)
+    prs = sorted({(I.spec(c.ga), I.spec(c.gb)) for c, *_ in idx})
+    for h in (M.many([["chyp2", a, b] for a, b in prs]) if prs else []):
+        R.count("pairs_seen_by_model")
+        if h == ["true"]: R.count("pairs_meeting_difference_theorem_hypotheses")
     mres = M.many(reqs) if reqs else []
     for (c, op, r, probes), m in zip(idx, mres):
         case = dict(a=c.a, b=c.b, op=op)
@@ -145,7 +150,7 @@ def run(tier):
         return R.finish(VC.TRUSTED, VC.ASSUME, RULE, "make -C coq Properties/C05.vo")
     M = common.Model()
     n = 2500 if tier == "quick" else 60000
-    cases = VC.gen_pairs(R, n)
+    cases = VC.gen_pairs(R, n) + VC.edge_pairs(R, n // 12)
     run_pairs(R, cases, M)
     # identities with the empty and the universal constraint
     for c in cases[: 400 if tier == "quick" else 5000]:
